@@ -9,6 +9,9 @@ require (
 	github.com/weedbox/timebank v0.0.0-20230713013837-bd7a6f808e3e
 )
 
-require github.com/thoas/go-funk v0.9.3 // indirect
+require (
+	github.com/google/uuid v1.3.1 // indirect
+	github.com/thoas/go-funk v0.9.3 // indirect
+)
 
 replace github.com/weedbox/pokertable => /repo
